@@ -72,6 +72,9 @@ func TestVerifC01Transport(t *testing.T) {
 		var labels []string
 		for _, cr := range c.S.Carriers[:len(c.S.Carriers)-1] {
 			labels = append(labels, "mode="+cr.Mode)
+			if cr.DialDelayMs >= 30000 {
+				labels = append(labels, "outage of 30 s or more between carriers")
+			}
 			if cr.CutUpAfter > 0 && cr.CutUpAfter < 400 || cr.CutDownAfter > 0 && cr.CutDownAfter < 400 {
 				labels = append(labels, "cut inside handshake/token/id")
 			}
